@@ -57,6 +57,8 @@ type c07Rec struct {
 
 func (r c07Rec) tok() string {
 	switch r.kind {
+	case "A0":
+		return "A0"
 	case "A":
 		b := r.addr.As4()
 		return "A:" + hex.EncodeToString(b[:])
@@ -78,19 +80,23 @@ func c07RecsTok(l []c07Rec) string {
 	return strings.Join(t, "+")
 }
 
-func c07RRs(name string, recs []c07Rec) []dnsmessage.RR {
+func c07RRs(name string, recs []c07Rec) []dnsmessage.RR { return c07RRsTTL(name, recs, 300) }
+
+func c07RRsTTL(name string, recs []c07Rec, ttl uint32) []dnsmessage.RR {
 	var rrs []dnsmessage.RR
 	owner := dnsmessage.CanonicalName(name)
 	for _, r := range recs {
 		switch r.kind {
+		case "A0": // an A record without address bytes (rdlength 0)
+			rrs = append(rrs, &dnsmessage.A{Hdr: dnsmessage.RR_Header{Name: owner, Rrtype: dnsmessage.TypeA, Class: dnsmessage.ClassINET, Ttl: ttl}})
 		case "A":
 			b := r.addr.As4()
-			rrs = append(rrs, &dnsmessage.A{Hdr: dnsmessage.RR_Header{Name: owner, Rrtype: dnsmessage.TypeA, Class: dnsmessage.ClassINET, Ttl: 300}, A: net.IP(b[:])})
+			rrs = append(rrs, &dnsmessage.A{Hdr: dnsmessage.RR_Header{Name: owner, Rrtype: dnsmessage.TypeA, Class: dnsmessage.ClassINET, Ttl: ttl}, A: net.IP(b[:])})
 		case "AAAA":
 			b := r.addr.As16()
-			rrs = append(rrs, &dnsmessage.AAAA{Hdr: dnsmessage.RR_Header{Name: owner, Rrtype: dnsmessage.TypeAAAA, Class: dnsmessage.ClassINET, Ttl: 300}, AAAA: net.IP(b[:])})
+			rrs = append(rrs, &dnsmessage.AAAA{Hdr: dnsmessage.RR_Header{Name: owner, Rrtype: dnsmessage.TypeAAAA, Class: dnsmessage.ClassINET, Ttl: ttl}, AAAA: net.IP(b[:])})
 		default:
-			rrs = append(rrs, &dnsmessage.CNAME{Hdr: dnsmessage.RR_Header{Name: owner, Rrtype: dnsmessage.TypeCNAME, Class: dnsmessage.ClassINET, Ttl: 300}, Target: "alias.test."})
+			rrs = append(rrs, &dnsmessage.CNAME{Hdr: dnsmessage.RR_Header{Name: owner, Rrtype: dnsmessage.TypeCNAME, Class: dnsmessage.ClassINET, Ttl: ttl}, Target: "alias.test."})
 		}
 	}
 	return rrs
@@ -101,6 +107,10 @@ func c07RecsOfRRs(rrs []dnsmessage.RR) string {
 	for _, rr := range rrs {
 		switch b := rr.(type) {
 		case *dnsmessage.A:
+			if len(b.A) == 0 {
+				l = append(l, c07Rec{kind: "A0"})
+				continue
+			}
 			a, _ := netip.AddrFromSlice(b.A.To4())
 			l = append(l, c07Rec{"A", a})
 		case *dnsmessage.AAAA:
@@ -122,6 +132,7 @@ type c07Ans struct {
 	recs     []c07Rec // ANSWER section
 	ns       []c07Rec // AUTHORITY section (never routed)
 	extra    []c07Rec // ADDITIONAL section (glue; never routed)
+	ttl0     bool     // answer records carry TTL 0: stored already expired
 }
 
 func (a c07Ans) tok() string {
@@ -136,6 +147,9 @@ func (a c07Ans) tok() string {
 		fl += "e"
 	} else {
 		fl += "s"
+	}
+	if a.ttl0 {
+		fl += "z"
 	}
 	return fl + "/" + a.qv + "/" + c07RecsTok(a.recs) + "/" + c07RecsTok(a.ns) + "/" + c07RecsTok(a.extra)
 }
@@ -156,6 +170,11 @@ type c07Cur struct {
 	expect      *dnsmessage.Question
 	fwdDiffers  bool // some forwarded query did not carry the client's question
 	fallbackUse int
+	// pair mode: two clients in flight at once; every forward waits until both have arrived (or 3 s)
+	pair     bool
+	arrivals int
+	release  chan struct{}
+	pairRecs []c07Rec
 }
 
 var c07Current *c07Cur
@@ -170,6 +189,26 @@ func (f *c07Fwd) ForwardDNS(ctx context.Context, data []byte) (*dnsmessage.Msg, 
 	cur := c07Current
 	var q dnsmessage.Msg
 	uerr := q.Unpack(data)
+	if cur.pair {
+		cur.mu.Lock()
+		cur.trace = append(cur.trace, f.up)
+		cur.arrivals++
+		if cur.arrivals == 2 {
+			close(cur.release)
+		}
+		cur.mu.Unlock()
+		select {
+		case <-cur.release:
+		case <-time.After(3 * time.Second): // the other client never arrived: the two were coalesced
+		}
+		if uerr != nil {
+			return nil, errC07Forward
+		}
+		m := new(dnsmessage.Msg)
+		m.SetReply(&q)
+		m.Answer = c07RRs(q.Question[0].Name, cur.pairRecs)
+		return m, nil
+	}
 	cur.mu.Lock()
 	var depth int
 	if f.fallback {
@@ -215,8 +254,12 @@ func (f *c07Fwd) ForwardDNS(ctx context.Context, data []byte) (*dnsmessage.Msg, 
 			m.Question[0].Name = "evil.test."
 		case "T":
 			m.Question[0].Qtype++
-		case "C":
-			m.Question[0].Qclass = dnsmessage.ClassCHAOS
+		case "C": // another class than asked
+			if m.Question[0].Qclass == dnsmessage.ClassCHAOS {
+				m.Question[0].Qclass = dnsmessage.ClassINET
+			} else {
+				m.Question[0].Qclass = dnsmessage.ClassCHAOS
+			}
 		}
 	}
 	if a.qv == "N" {
@@ -228,7 +271,11 @@ func (f *c07Fwd) ForwardDNS(ctx context.Context, data []byte) (*dnsmessage.Msg, 
 	if a.servfail {
 		m.Rcode = dnsmessage.RcodeServerFailure
 	}
-	m.Answer = c07RRs(name, a.recs)
+	ttl := uint32(300)
+	if a.ttl0 {
+		ttl = 0
+	}
+	m.Answer = c07RRsTTL(name, a.recs, ttl)
 	m.Ns = c07RRs(name, a.ns)
 	m.Extra = c07RRs(name, a.extra)
 	return m, nil
@@ -251,7 +298,7 @@ var c07Ups []c07UpDef
 // forwardWithFallback's second attempt at a tcp+udp upstream is recognised in the factory by its TCP dial argument.
 func c07Ident(upstreamString string) (string, bool) {
 	for k, d := range c07Ups {
-		if d.up.String() == upstreamString {
+		if d.up != nil && d.up.String() == upstreamString {
 			return fmt.Sprintf("u%d", k), false
 		}
 	}
@@ -296,6 +343,12 @@ func c07GenUpstreams(r *VRand, nUp int, stats *VStats) []string {
 			}
 			continue
 		}
+		if r.Chance(0.07) {
+			// a host name the bootstrap resolver cannot resolve: GetUpstream fails whenever this upstream is selected
+			urls = append(urls, fmt.Sprintf("tls://dead%d.invalid", k))
+			stats.Inc("upstream.does-not-resolve")
+			continue
+		}
 		scheme := []string{"udp", "tcp+udp", "https", "https", "tls", "h3", "quic", "tcp", "tcp+udp", "udp"}[r.Intn(10)]
 		ip := fmt.Sprintf("192.0.2.%d", len(groups)+1)
 		groups = append(groups, group{scheme, ip, 1})
@@ -326,7 +379,7 @@ func c07MakeUpDefs(urls []string) ([]c07UpDef, error) {
 		}
 		up, err := componentdns.NewUpstream(context.Background(), u, "udp", c07ResolveHost)
 		if err != nil {
-			return nil, err
+			up = nil // a host that does not resolve: GetUpstream fails for this upstream
 		}
 		defs = append(defs, c07UpDef{raw, up})
 	}
@@ -342,6 +395,8 @@ func c07ErrClass(err error) string {
 		return "questionmismatch"
 	case errors.Is(err, errC07Forward):
 		return "forwardfail"
+	case strings.Contains(s, "failed to init dns upstream"):
+		return "upstreaminit"
 	case strings.Contains(s, "too deep DNS lookup"):
 		return "toodeep"
 	case strings.Contains(s, "DNS request expected"):
@@ -391,9 +446,11 @@ func c07DumpCache(c *DnsController) string {
 	return strings.Join(l, ";")
 }
 
-func c07NewController(t *testing.T, routing *componentdns.Dns) *DnsController {
+func c07NewController(t *testing.T, routing *componentdns.Dns, optimistic bool) *DnsController {
 	log := c07Quiet()
 	ctrl, err := NewDnsController(routing, &DnsControllerOption{
+		OptimisticCache:     optimistic,
+		OptimisticCacheTtl:  60,
 		Log:                 log,
 		LifecycleContext:    context.Background(),
 		CacheAccessCallback: func(*DnsCache) error { return nil },
@@ -417,6 +474,11 @@ func c07NewController(t *testing.T, routing *componentdns.Dns) *DnsController {
 		t.Fatalf("NewDnsController: %v", err)
 	}
 	return ctrl
+}
+
+type c07Stale struct {
+	key string
+	e   *DnsCache
 }
 
 // response rule lists that make answers bounce between upstreams
@@ -453,6 +515,11 @@ func c07GenRecs(r *VRand, stats *VStats) []c07Rec {
 	if r.Chance(0.3) {
 		i := r.Intn(len(recs) + 1)
 		recs = append(recs[:i], append([]c07Rec{{kind: "O"}}, recs[i:]...)...)
+	}
+	if r.Chance(0.04) {
+		i := r.Intn(len(recs) + 1)
+		recs = append(recs[:i], append([]c07Rec{{kind: "A0"}}, recs[i:]...)...) // an A record without address
+		stats.Inc("answer.a-record-without-address")
 	}
 	return recs
 }
@@ -547,6 +614,14 @@ func TestVerifC07Controller(t *testing.T) {
 	st.Emit(fmt.Sprintf("depth %d", MaxDnsLookupDepth), "ok")
 	for ci := 0; ci < nCfg; ci++ {
 		nUp := []int{0, 1, 2, 2, 3, 3, 4}[r.Intn(7)]
+		if r.Chance(0.03) {
+			nUp = []int{12, 40, 100}[r.Intn(3)] // many upstreams
+			if VThorough() && r.Chance(0.2) {
+				nUp = 251 // the most dns.New accepts
+			}
+			stats.Inc("cfg.many-upstreams")
+		}
+		optimistic := r.Chance(0.25)
 		reqRules := c07GenRules(r, nUp, false, maxRules, stats)
 		var respRules []c07Rule
 		if nUp > 0 && r.Chance(0.3) {
@@ -571,8 +646,14 @@ func TestVerifC07Controller(t *testing.T) {
 			t.Fatalf("upstream definitions: %v", err)
 		}
 		c07Ups = defs
-		cfgOp := fmt.Sprintf("cfg %d %s %s %s %s urls:%s", nUp, reqFb, c07RenderOp(reqRules), respFb, c07RenderOp(respRules),
-			strings.Join(urls, ","))
+		var deadToks []string
+		for k := 0; k < nUp; k++ {
+			if defs[k].up == nil {
+				deadToks = append(deadToks, fmt.Sprintf("u%d", k))
+			}
+		}
+		cfgOp := fmt.Sprintf("cfg %d %s %s %s %s urls:%s dead:%s opt:%s", nUp, reqFb, c07RenderOp(reqRules), respFb, c07RenderOp(respRules),
+			strings.Join(urls, ","), strings.Join(deadToks, ","), c07B(optimistic))
 		routing, err := componentdns.New(dnsCfg, &componentdns.NewOption{
 			Logger:                  c07Quiet(),
 			UpstreamReadyCallback:   func(*componentdns.Upstream) error { return nil },
@@ -591,7 +672,10 @@ func TestVerifC07Controller(t *testing.T) {
 		// ONE controller per scenario: its forwarder cache AND its response cache live across the asks
 		// (the model threads the cache through the scenario), so which cached forwarder carries a query
 		// depends on the forwarder cache key, and what an ask stored is what a later ask is served.
-		ctrl := c07NewController(t, routing)
+		ctrl := c07NewController(t, routing, optimistic)
+		if optimistic {
+			stats.Inc("cfg.optimistic-cache")
+		}
 
 		names := c07Names(r, reqRules, perCfg, stats)
 		type asked struct {
@@ -599,6 +683,7 @@ func TestVerifC07Controller(t *testing.T) {
 			qt   uint16
 		}
 		var earlier []asked
+		var staleEntries []c07Stale
 		for ai := 0; ai < perCfg; ai++ {
 			// names as they come off the wire: fully qualified, any case
 			name := strings.TrimRight(names[ai], ".") + "."
@@ -617,14 +702,23 @@ func TestVerifC07Controller(t *testing.T) {
 			}
 			earlier = append(earlier, asked{name, qt})
 			dst := r.Range(1, 2)
+			qclass := uint16(dnsmessage.ClassINET)
+			switch r.Intn(12) {
+			case 0:
+				qclass = dnsmessage.ClassCHAOS
+				stats.Inc("ask.class-other-than-IN")
+			case 1:
+				qclass = dnsmessage.ClassANY
+				stats.Inc("ask.class-other-than-IN")
+			}
 			isResp := r.Chance(0.03)
 			noq := r.Chance(0.04)
 			if noq {
-				name, qt = "", 0 // what the controller uses for a message without question
+				name, qt, qclass = "", 0, dnsmessage.ClassINET // what the controller uses for a message without question
 			} else {
 				// the name as it comes OFF THE WIRE: miekg's presentation form after Pack/Unpack (`@` arrives as `\@`)
 				probe := new(dnsmessage.Msg)
-				probe.Question = []dnsmessage.Question{{Name: name, Qtype: qt, Qclass: dnsmessage.ClassINET}}
+				probe.Question = []dnsmessage.Question{{Name: name, Qtype: qt, Qclass: qclass}}
 				var wire dnsmessage.Msg
 				if b, err := probe.Pack(); err != nil || wire.Unpack(b) != nil || len(wire.Question) != 1 {
 					name = "pack-failed.test."
@@ -644,11 +738,15 @@ func TestVerifC07Controller(t *testing.T) {
 			var ansToks []string
 			for ui, up := range ups {
 				base := c07GenAns(r, stats)
-				tcpudp := ui > 0 && c07Ups[ui-1].up.Scheme == componentdns.UpstreamScheme_TCP_UDP
+				tcpudp := ui > 0 && c07Ups[ui-1].up != nil && c07Ups[ui-1].up.Scheme == componentdns.UpstreamScheme_TCP_UDP
 				for d := 0; d <= MaxDnsLookupDepth; d++ {
 					a := base
 					if r.Chance(0.15) {
 						a = c07GenAns(r, stats)
+					}
+					if !optimistic && !a.fail && r.Chance(0.05) {
+						a.ttl0 = true // (with the optimistic cache an expired entry would be a stale one: C08's subject)
+						stats.Inc("answer.ttl-0")
 					}
 					if r.Chance(0.03) {
 						continue // no entry: the upstream does not answer
@@ -667,8 +765,20 @@ func TestVerifC07Controller(t *testing.T) {
 
 			// seed the response cache through the production insert path
 			var seedToks []string
-			if r.Chance(0.4) && !isIP { // (an IP-literal name is never stored: not seedable)
+			for i := range staleEntries { // a re-seeded or refreshed key is no longer the object we made stale
+				if v, ok := ctrl.dnsCache.Load(staleEntries[i].key); !ok || v.(*DnsCache) != staleEntries[i].e {
+					staleEntries[i].e = nil
+				}
+			}
+			seedP := 0.4
+			if optimistic {
+				seedP = 0.85
+			}
+			if r.Chance(seedP) && !isIP { // (an IP-literal name is never stored: not seedable)
 				ns := r.Range(1, 3)
+				if optimistic {
+					ns = r.Range(2, 5)
+				}
 				for i := 0; i < ns; i++ {
 					sel := []string{"s", "s", "s", "s", "o", "t"}[r.Intn(6)]
 					sname, sqt := name, qt
@@ -682,11 +792,17 @@ func TestVerifC07Controller(t *testing.T) {
 					baseKey := ctrl.cacheKey(sname, sqt)
 					if r.Bool() {
 						d := r.Range(1, 3)
+						if r.Chance(0.6) {
+							d = dst // the resolver this client addresses
+						}
 						scTok = fmt.Sprintf("a%d", d)
 						req := &udpRequest{realDst: netip.MustParseAddrPort(fmt.Sprintf("9.9.9.%d:53", d))}
 						key = ctrl.responseCacheKey(baseKey, req, consts.DnsRequestOutboundIndex_AsIs, nil)
 					} else {
 						k := r.Intn(nUp + 1)
+						if c07Ups[k].up == nil {
+							continue // an upstream that never initialises has no cache scope
+						}
 						scTok = fmt.Sprintf("u%d", k)
 						key = ctrl.responseCacheKey(baseKey, nil, consts.DnsRequestOutboundIndex(k), c07Ups[k].up)
 					}
@@ -694,7 +810,19 @@ func TestVerifC07Controller(t *testing.T) {
 					if err := ctrl.UpdateDnsCacheTtlWithKey(key, sname, sqt, c07RRs(sname, recs), nil, nil, 300); err != nil {
 						t.Fatalf("seed: %v", err)
 					}
-					seedToks = append(seedToks, sel+"/"+scTok+"/"+c07RecsTok(recs))
+					staleTok := ""
+					if optimistic && !noq && r.Chance(0.5) {
+						// expired one second ago, inside the 60 s stale window: served stale + refreshed in the background
+						if v, ok := ctrl.dnsCache.Load(key); ok {
+							e := v.(*DnsCache)
+							e.Deadline = time.Now().Add(-time.Second)
+							e.deadlineNano.Store(e.Deadline.UnixNano())
+							staleTok = "/S"
+							staleEntries = append(staleEntries, c07Stale{key, e})
+							stats.Inc("ask.seeded-stale-entry")
+						}
+					}
+					seedToks = append(seedToks, sel+"/"+scTok+"/"+c07RecsTok(recs)+staleTok)
 					stats.Inc("ask.seeded-cache-entry." + sel)
 				}
 			}
@@ -703,8 +831,8 @@ func TestVerifC07Controller(t *testing.T) {
 			msg.Id = uint16(r.Intn(65536))
 			msg.RecursionDesired = true
 			if !noq {
-				msg.Question = []dnsmessage.Question{{Name: name, Qtype: qt, Qclass: dnsmessage.ClassINET}}
-				cur.expect = &dnsmessage.Question{Name: name, Qtype: qt, Qclass: dnsmessage.ClassINET}
+				msg.Question = []dnsmessage.Question{{Name: name, Qtype: qt, Qclass: qclass}}
+				cur.expect = &dnsmessage.Question{Name: name, Qtype: qt, Qclass: qclass}
 			} else {
 				stats.Inc("ask.no-question")
 			}
@@ -727,8 +855,8 @@ func TestVerifC07Controller(t *testing.T) {
 			if noq {
 				hq = "noq"
 			}
-			op := fmt.Sprintf("ask %d %s %s n:%s %d %s ip:%s seed:%s ans:%s", dst, c07B(isResp), hq, name, qt, c07Rx(name),
-				c07B(isIP), strings.Join(seedToks, ","), strings.Join(ansToks, ","))
+			op := fmt.Sprintf("ask %d %s %s n:%s %d %s ip:%s cl:%d seed:%s ans:%s", dst, c07B(isResp), hq, name, qt, c07Rx(name),
+				c07B(isIP), qclass, strings.Join(seedToks, ","), strings.Join(ansToks, ","))
 			out := VRecover(func() string {
 				ctx, cancel := context.WithTimeout(context.Background(), 5*time.Second)
 				defer cancel()
@@ -748,6 +876,21 @@ func TestVerifC07Controller(t *testing.T) {
 					}
 				} else {
 					err = ctrl.HandleWithResponseWriter_(ctx, msg, req, w)
+				}
+				// a stale hit started a background refresh: wait until it has finished (entry replaced, or the
+				// single-refresh latch released) — bounded, and only ever waits for a goroutine that is running
+				for _, se := range staleEntries {
+					if se.e == nil || !se.e.IsRefreshing() {
+						continue
+					}
+					stats.Inc("ask.background-refresh")
+					for i := 0; i < 100000; i++ {
+						v, ok := ctrl.dnsCache.Load(se.key)
+						if !ok || v.(*DnsCache) != se.e || !se.e.IsRefreshing() {
+							break
+						}
+						time.Sleep(200 * time.Microsecond)
+					}
 				}
 				cur.mu.Lock()
 				trace := strings.Join(cur.trace, ",")
@@ -791,6 +934,66 @@ func TestVerifC07Controller(t *testing.T) {
 			if ci < 2 && ai < 2 {
 				stats.Sample(op)
 			}
+		}
+		_ = ctrl.Close()
+	}
+
+	// ---- two clients in flight at once (singleflight): same question, routed as-is, different resolvers.
+	// Every fake forward waits until both clients' queries have arrived (3 s at most), so a coalesced pair
+	// shows as ONE query.  Each client must be resolved at its own resolver.
+	nPair := 12
+	if VThorough() {
+		nPair = 80
+	}
+	for pi := 0; pi < nPair; pi++ {
+		text := c07ConfigText(0, nil, nil, "asis", nil, "accept")
+		dnsCfg, err := c07ParseConfig(text)
+		if err != nil {
+			t.Fatalf("pair config: %v", err)
+		}
+		routing, err := componentdns.New(dnsCfg, &componentdns.NewOption{Logger: c07Quiet(),
+			UpstreamReadyCallback: func(*componentdns.Upstream) error { return nil }})
+		if err != nil {
+			t.Fatalf("pair config: %v", err)
+		}
+		c07Ups = nil
+		st.Emit("cfg 0 asis - accept - urls: dead: opt:0", "ok")
+		ctrl := c07NewController(t, routing, false)
+		for k := 0; k < 3; k++ {
+			name := strings.ToLower(c07Domain(r)) + "."
+			qt := []uint16{1, 28, 16}[r.Intn(3)]
+			recs := c07GenRecs(r, stats)
+			cur := &c07Cur{pair: true, release: make(chan struct{}), pairRecs: recs}
+			c07Current = cur
+			var wg sync.WaitGroup
+			replies := make([]string, 2)
+			for ci := 0; ci < 2; ci++ {
+				wg.Add(1)
+				go func(ci int) {
+					defer wg.Done()
+					msg := new(dnsmessage.Msg)
+					msg.Id = uint16(100 + ci)
+					msg.Question = []dnsmessage.Question{{Name: name, Qtype: qt, Qclass: dnsmessage.ClassINET}}
+					req := &udpRequest{
+						realSrc:       netip.MustParseAddrPort(fmt.Sprintf("192.0.2.%d:41000", 10+ci)),
+						realDst:       netip.MustParseAddrPort(fmt.Sprintf("9.9.9.%d:53", ci+1)),
+						routingResult: &bpfRoutingResult{},
+					}
+					w := &c07Writer{}
+					ctx, cancel := context.WithTimeout(context.Background(), 20*time.Second)
+					defer cancel()
+					if err := ctrl.HandleWithResponseWriter_(ctx, msg, req, w); err != nil || w.msg == nil {
+						replies[ci] = "err"
+						return
+					}
+					replies[ci] = "ans:ok:" + c07RecsOfRRs(w.msg.Answer)
+				}(ci)
+			}
+			wg.Wait()
+			sort.Strings(cur.trace)
+			st.Emit(fmt.Sprintf("pair n:%s %d %s %s", name, qt, c07Rx(name), c07RecsTok(recs)),
+				fmt.Sprintf("asked=%s r1=%s r2=%s", strings.Join(cur.trace, ","), replies[0], replies[1]))
+			stats.Inc("op.pair")
 		}
 		_ = ctrl.Close()
 	}
